@@ -288,6 +288,17 @@ class Incarnation:
         return self.models[mid]
 
     def _leaf(self, x, leaf, arr_dtype="float64"):
+        if leaf == "np_rov":
+            # a READ-ONLY numpy view of memory the caller keeps writing to (a row of a parameter table, a
+            # column of a DataFrame, np.broadcast_to(...)): the view cannot be written through, its base can
+            if isinstance(x, list):
+                base = np.array(x, dtype=np.dtype(arr_dtype))
+                v = base.view()
+            else:
+                base = np.array([x, 0.0], dtype=np.float64)
+                v = base[0:1].reshape(())
+            v.flags.writeable = False
+            return v
         if isinstance(x, list):
             a = np.array(x, dtype=np.dtype(arr_dtype))
             return self.jnp.array(a) if leaf in ("jax", "float", "int", "jaxint") else a
@@ -687,6 +698,16 @@ class Incarnation:
             else:
                 cur = obj.get(k)
                 want = np.dtype(arr_dtype) if isinstance(v, list) else None
+                if isinstance(cur, np.ndarray) and not cur.flags.writeable and cur.base is not None and cur.shape == np.shape(v) and (want is None or cur.dtype == want):
+                    b_ = cur.base
+                    while b_.base is not None:
+                        b_ = b_.base
+                    if b_.flags.writeable:  # the caller updates its own table in place; the leaf is a view of it
+                        if cur.shape == ():
+                            b_[0] = v
+                        else:
+                            b_[...] = np.asarray(v, dtype=b_.dtype).reshape(b_.shape)
+                        continue
                 if isinstance(cur, np.ndarray) and cur.flags.writeable and cur.shape == np.shape(v) and (want is None or cur.dtype == want):
                     cur[...] = v
                 else:
